@@ -23,7 +23,7 @@ MANIFEST = {
     'technique': 'offline trace-specification checker over per-process event logs written by recording wrappers on the real stage functions (incl. forked workers)',
 }
 BUDGET_S = {'quick': 75, 'thorough': 480}
-RULE = ('grid variant x imf option set (3) x interpolation (2) x extrema option set (3) x delivery route (keyword dicts, '
+RULE = ('grid variant x imf option set (4, one with an energy threshold) x interpolation (2) x extrema option set (3) x delivery route (keyword dicts, '
         '**SiftConfig, get_func partial) x nprocesses (1,2,3) x 3 signals; quick = seeded sample of the grid with every '
         '(variant, route) cell forced, thorough = whole grid; non-trivial = the call produced stage events of all three '
         'stages; distinct by grid cell')
@@ -33,7 +33,8 @@ ASSUMPTIONS = ['extrema events issued outside a traced envelope call (amplitude 
 
 IMF = [{'stop_method': 'rilling', 'rilling_thresh': (0.1, 0.8, 0.1), 'env_step_size': .5},
        {'stop_method': 'fixed', 'max_iters': 3},
-       {'stop_method': 'sd', 'sd_thresh': .05, 'env_step_size': .3}]
+       {'stop_method': 'sd', 'sd_thresh': .05, 'env_step_size': .3},
+       {'stop_method': 'sd', 'sd_thresh': .1, 'energy_thresh': 5}]
 ENV = [{'interp_method': 'pchip'}, {'interp_method': 'mono_pchip'}]
 EXT = [{'pad_width': 3}, {'pad_width': 1, 'parabolic_extrema': True},
        {'pad_width': 2, 'mag_pad_opts': {'mode': 'mean', 'stat_length': 2}}]
@@ -166,7 +167,12 @@ def run_cell(ctx, tr, cell, sigk):
                     sa = dict(cfg)
                     sa['max_imfs'] = 2
                     sa.pop('verbose', None)
-                if name == 'sift_second_layer':
+                if name == 'sift_second_layer' and route == 'func':
+                    # options split over two delivery routes: a default-config partial as sift_func, the supplied options in
+                    # sift_args (call-time keywords win over the partial's, as functools.partial defines)
+                    S.sift_second_layer(IA, sift_func=S.get_config('sift').get_func(), sift_args=sa)
+                    ctx.count('second_layer_with_partial_sift_func')
+                elif name == 'sift_second_layer':
                     S.sift_second_layer(IA, sift_args=sa)
                 else:
                     sa.pop('mask_freqs', None)
@@ -231,6 +237,31 @@ def run_cell(ctx, tr, cell, sigk):
         if abs(ret[1][0] - z0) > 1e-12 * max(abs(z0), 1e-12):
             ctx.violation('first-mask-frequency:%s' % v.split(':')[1], '%s (route %s): first mask frequency %.6g is not the estimate %.6g obtained from '
                           'the first IMF extracted with the supplied options' % (v, route, ret[1][0], z0), case)
+    # third oracle: the deterministic variants equal the pipeline assembled explicitly from the stage functions with the
+    # same options (column by column until the stage reports that nothing is left, the cap or the sift threshold)
+    if name in ('sift', 'mask_sift') and ret is not None:
+        out = ret[0] if isinstance(ret, tuple) else ret
+        cap = extra.get('max_imfs', 3)
+        cols = []
+        for layer in range(cap):
+            resid = (x - np.sum(cols, axis=0)) if cols else x
+            if name == 'sift':
+                col, flag = S.get_next_imf(resid[:, None], envelope_opts=wantE, extrema_opts=wantX, **wantI)
+            else:
+                sd = x.std() if layer == 0 else cols[-1].std()
+                col, flag = S.get_next_imf_mask(resid[:, None], ret[1][layer], 1 * sd, nphases=3, nprocesses=1,
+                                                imf_opts=wantI, envelope_opts=wantE, extrema_opts=wantX)
+            cols.append(col[:, 0])
+            if not flag or np.abs(col).sum() < 1e-8:
+                break
+        ref = np.array(cols).T
+        ctx.count('explicit_pipeline_comparisons')
+        if 'energy_thresh' in wantI and wantI['energy_thresh'] is not None and ref.shape[1] < cap:
+            ctx.count('explicit_pipelines_stopped_by_energy_threshold')
+        if out.shape != ref.shape or np.abs(out - ref).max() > 1e-10 * np.abs(x).max():
+            ctx.violation('explicit-pipeline:%s' % name, '%s (route %s) returned %s, the pipeline assembled from the stage functions with the same '
+                          'options gives %s (max diff %s)' % (v, route, out.shape, ref.shape,
+                                                            np.abs(out - ref).max() if out.shape == ref.shape else 'n/a'), case)
     bad = judge(events, wantI, wantE, wantX)
     if bad:
         seen = set()
